@@ -1,0 +1,103 @@
+// Copyright 2016-2019 DutchSec (https://dutchsec.com/)
+//
+// Licensed under the Apache License, Version 2.0 (the "License");
+// you may not use this file except in compliance with the License.
+// You may obtain a copy of the License at
+//
+// http://www.apache.org/licenses/LICENSE-2.0
+//
+// Unless required by applicable law or agreed to in writing, software
+// distributed under the License is distributed on an "AS IS" BASIS,
+// WITHOUT WARRANTIES OR CONDITIONS OF ANY KIND, either express or implied.
+// See the License for the specific language governing permissions and
+// limitations under the License.
+package decoder
+
+import (
+	"errors"
+)
+
+var (
+	// ErrBERTruncated is returned when an element announces more bytes than there are
+	ErrBERTruncated = errors.New("ber: element does not fit into its parent")
+	// ErrBERIndefinite is returned for the indefinite length form
+	ErrBERIndefinite = errors.New("ber: indefinite length not supported")
+)
+
+// BERHeader parses the identifier and length octets at the start of b. It
+// returns the size of the header, the announced content length and whether the
+// element is constructed. ok is false when b is too short to tell.
+func BERHeader(b []byte) (hdr int, length int, constructed bool, ok bool, err error) {
+	if len(b) < 2 {
+		return 0, 0, false, false, nil
+	}
+
+	constructed = b[0]&0x20 != 0
+
+	i := 1
+	if b[0]&0x1f == 0x1f {
+		// high tag number form: octets with the top bit set, then a last one
+		for i < len(b) && b[i]&0x80 != 0 {
+			i++
+		}
+		i++
+	}
+
+	if i >= len(b) {
+		return 0, 0, false, false, nil
+	}
+
+	l := int(b[i])
+	i++
+
+	if l < 0x80 {
+		return i, l, constructed, true, nil
+	}
+
+	n := l & 0x7f
+	if n == 0 {
+		return 0, 0, false, true, ErrBERIndefinite
+	}
+
+	if n > 4 {
+		// more than 2^32 bytes never fit
+		return 0, 0, false, true, ErrBERTruncated
+	}
+
+	if i+n > len(b) {
+		return 0, 0, false, false, nil
+	}
+
+	l = 0
+	for _, c := range b[i : i+n] {
+		l = l<<8 | int(c)
+	}
+
+	return i + n, l, constructed, true, nil
+}
+
+// CheckBER verifies that b consists of BER elements whose (nested) announced
+// lengths all fit into the bytes that are actually there, so that a decoder
+// allocating by announced length cannot be made to allocate more than len(b).
+func CheckBER(b []byte) error {
+	for len(b) > 0 {
+		hdr, length, constructed, ok, err := BERHeader(b)
+		if err != nil {
+			return err
+		}
+
+		if !ok || length < 0 || hdr+length > len(b) {
+			return ErrBERTruncated
+		}
+
+		if constructed {
+			if err := CheckBER(b[hdr : hdr+length]); err != nil {
+				return err
+			}
+		}
+
+		b = b[hdr+length:]
+	}
+
+	return nil
+}
